@@ -12,6 +12,18 @@ Three ingredients (see tools/README.md):
               model; PIPE: every pass of a real Passes.__call__ is recorded in-process and
               the model replays the pipeline with the passes' answers as validated oracles;
   * search    the property itself on the real pipeline (see SPEC_SRC.check_output).
+
+Deepening (lean/QV/Props/C11b.lean, Proofs/PipelineUnroll.lean, Proofs/PipelineFold.lean):
+  * LOCAL / DISPATCH: the unroller is inside the model — locality of the real tables' shapes is
+    decided on every run, C10's dispatch model replays the real Unroller calls recorded inside
+    real pipeline runs, and the contract `unrollOk` is derived (T11_unrollOk_derived);
+  * PIPE lines carry arbitrary pass lists (extra Preprocessing / Unroller passes anywhere); the
+    driver evaluates the fold flags placedAfter / connAfter / decAfter / layoutAfter
+    (T11_fold_invariants, T11_fold_layout) against the real verdicts;
+  * histories: pass OBJECTS shared by several Passes objects / built with another device's
+    graph (run_shared, recorded hand-over: T11_handover_history_free), and one circuit object
+    executed through the installed transpiler, its parameters updated, executed again
+    (run_params).
 """
 from __future__ import annotations
 
@@ -317,7 +329,10 @@ def check_output(case, c, before, out, layout, P, D):
         bad.append(("operator", f"output operator differs from P.(U (x) 1) with layout {f} (wire_names {wn})"))
     # measurements: same registers, same order of qubits, moved through the layout
     ref = build_circuit(n, case["wire_names"], case["gates"])
-    tin, tout = trailing(ref.queue), trailing(out.queue)
+    # (a collapsing measurement inside the trailing block may change place with a reporting one on
+    # the same qubit — routers re-attach the reporting ones last; its position enters the operator
+    # identity and the multiset comparison below)
+    tin, tout = [m for m in trailing(ref.queue) if not m.collapse], [m for m in trailing(out.queue) if not m.collapse]
     win = [(regname(m), tuple(f[q] for q in m.qubits)) for m in tin]
     wout = [(regname(m), tuple(m.qubits)) for m in tout[len(tout) - len(tin):]] if len(tout) >= len(tin) else None
     if wout != win:
@@ -697,6 +712,21 @@ def make_case(rng, shape=None, style=None, placer="auto", router="auto", unroll=
             "exact": mode in ("int", "det", "detcnot"), "det": mode in ("det", "detcnot"), "mode": mode}
     if case["det"]:
         case["inputs"] = [[rng.randrange(2) for _ in range(n)] for _ in range(2)]
+    return case
+
+
+# pass lists with TWO routers: Passes returns only the last router's layout (reported to the lead
+# with /tmp/patches/c11_4.diff: the layouts must be composed, cf. T11_fold_semantics / T11_fold_layout);
+# switch on once the patch is applied (or the finding is listed): key `two-routers:layout`
+TWO_ROUTERS = False
+
+
+def make_two_routers(rng):
+    case = make_case(rng, shape=rng.choice(["line5", "ring5", "tee5", "line4"]), placer=rng.choice(["none", "Random"]),
+                     router=rng.choice(["ShortestPaths", "Sabre"]), unroll="none", mode="det", meas="trailing", restrict=False,
+                     ngates=rng.randint(3, 8))
+    i = next(k for k, d in enumerate(case["passes"]) if d[0] == "router")
+    case["passes"].insert(i + 1, router_desc(rng, rng.choice(["ShortestPaths", "Sabre"])))
     return case
 
 
@@ -1372,6 +1402,9 @@ def search_suite(ctx, rng):
     # arbitrary pass lists: extra Preprocessing / Unroller passes at any position
     for _ in range(1500 if ctx.thorough else 150):
         cases.append(make_odd(rng, make_case(rng, ngates=rng.randint(1, 8))))
+    if TWO_ROUTERS:
+        for _ in range(300 if ctx.thorough else 40):
+            cases.append(make_two_routers(rng))
     # random
     for _ in range(16000 if ctx.thorough else 1300):
         cases.append(make_case(rng))
@@ -1809,6 +1842,8 @@ def fail_key(case, kind, detail):
         return "raises:star-placer-measurement"
     if kind == "registers-dropped":
         return "registers-dropped:" + (labs.get("router") or "none")
+    if len([d for d in case["passes"] if d[0] == "router"]) > 1 and kind in ("operator", "measurements", "samples", "layout"):
+        return "two-routers:layout"
     return f"{case_label(case)}:{kind}"
 
 
